@@ -1,7 +1,7 @@
 (* C08: the concrete dictionary / tmpOut bookkeeping (Model.FrameDDict) -- bounds of every memory
    operation, and what the bytes at dctx->dict are. *)
 From Coq Require Import ZArith List Lia Bool.
-From LZ4V Require Import Spec.BlockSpec Spec.XXH32 Spec.FrameSpec Gen.Consts Model.FrameD Model.FrameDDict.
+From LZ4V Require Import Spec.BlockSpec Spec.BlockFast Spec.XXH32 Spec.FrameSpec Gen.Consts Model.FrameD Model.FrameDDict.
 Import ListNotations.
 Local Open Scope Z_scope.
 
@@ -195,7 +195,142 @@ Proof.
     brk1; fin.
 Qed.
 
-Lemma dd_stage_init_ok mb maxBuf lnk fl d :
-  0 <= mb <= maxBuf -> ddI mb maxBuf lnk fl d \/ (exists mb' fl', ddI mb' maxBuf lnk fl' d) ->
-  True.
-Proof. auto. Qed.
+(* dstage_init / LZ4F_resetDecompressionContext / LZ4F_decompress_usingDict re-establish the invariant for the new frame *)
+Lemma dd_stage_init_ok mb maxBuf lnk d :
+  0 <= mb <= maxBuf -> 0 <= dd_dictSize d ->
+  match dd_dict d with PNull => dd_dictSize d = 0 | PTmp _ => False | PAbs _ => True end ->
+  ddI mb maxBuf lnk false (dd_stage_init d).
+Proof. intros H1 H2 H3. destruct d as [dict ds to tsz tst]. red1. destruct dict; [| tauto |]; constructor; cbn; auto; try lia; discriminate. Qed.
+
+(* the executable check used by the oracle is the predicate of the theorems *)
+Lemma op_okb_ok maxBuf lo hi op : op_okb maxBuf lo hi op = true -> op_ok maxBuf lo hi op.
+Proof.
+  destruct op as [dst src n|dst bs|dst cap dp ds bs]; cbn [op_okb op_ok]; intros H;
+    repeat (apply andb_prop in H; destruct H as [H ?]).
+  - destruct dst, src; cbn in *; b2p; repeat split; try discriminate; try lia;
+      repeat match goal with H : orb _ _ = true |- _ => apply orb_prop in H; destruct H end; b2p; lia.
+  - destruct dst; cbn in *; b2p; repeat split; try discriminate; try lia.
+  - destruct dst, dp; cbn in *; b2p; repeat split; try discriminate; try lia; intros; try discriminate;
+      repeat match goal with H : orb _ _ = true |- _ => apply orb_prop in H; destruct H end; b2p; try lia; discriminate.
+Qed.
+
+(* all the bookkeeping functions at once: each keeps the invariant and every memcpy / decoder call it
+   performs stays inside tmpOutBuffer[0, maxBufferSize) resp. the dst window, source and destination of a
+   memcpy inside tmpOutBuffer do not overlap.  (What is NOT proved here: that the stage machine of
+   Model.FrameD calls them with arguments meeting the side conditions -- dstStart <= dstPtr, 0 <= cap,
+   decodedSize <= maxBlockSize, maxBufferSize >= maxBlockSize + 128 KB for linked frames; the oracle
+   evaluates [ops_okb] on every call of the correspondence runs instead.) *)
+Theorem tmpOut_in_bounds_partial mb maxBuf lnk :
+  sizes mb maxBuf lnk ->
+  (forall dstnull d dstPtr dstStart piece hi,
+     ddI mb maxBuf lnk false d -> dstStart <= dstPtr -> dstPtr + zlen piece <= hi ->
+     Forall (op_ok maxBuf dstStart hi) (snd (dd_copyDirect maxBuf lnk dstnull d dstPtr dstStart piece)) /\
+     ddI mb maxBuf lnk false (fst (dd_copyDirect maxBuf lnk dstnull d dstPtr dstStart piece))) /\
+  (forall dstnull d dstPtr dstStart cap c,
+     ddI mb maxBuf lnk false d -> dstStart <= dstPtr -> 0 <= cap -> zlen c <= mb ->
+     Forall (op_ok maxBuf dstStart (dstPtr + cap)) (snd (dd_cblock mb maxBuf lnk dstnull d dstPtr dstStart cap c)) /\
+     ddI mb maxBuf lnk (negb (decode_direct mb d cap)) (fst (dd_cblock mb maxBuf lnk dstnull d dstPtr dstStart cap c))) /\
+  (forall dstnull d dstPtr dstStart cap,
+     ddI mb maxBuf lnk true d -> dstStart <= dstPtr -> 0 <= cap ->
+     Forall (op_ok maxBuf dstStart (dstPtr + cap)) (snd (dd_flushOut maxBuf lnk dstnull d dstPtr dstStart cap)) /\
+     ddI mb maxBuf lnk true (fst (dd_flushOut maxBuf lnk dstnull d dstPtr dstStart cap))) /\
+  (forall stable stage fl d lo hi,
+     ddI mb maxBuf lnk fl d -> (fl = true <-> stage = FlushOut) ->
+     Forall (op_ok maxBuf lo hi) (snd (dd_endcall lnk stable stage d)) /\
+     ddI mb maxBuf lnk fl (fst (dd_endcall lnk stable stage d))).
+Proof.
+  intros Hs. split; [|split; [|split]]; intros.
+  - apply (dd_copyDirect_ok mb); auto.
+  - apply dd_cblock_ok; auto.
+  - apply dd_flushOut_ok; auto.
+  - eapply dd_endcall_ok; eauto.
+Qed.
+
+(* the invariant is satisfiable: the state right after dstage_init *)
+Example ddI_example : sizes 65536 (65536 + 131072) true /\ ddI 65536 (65536 + 131072) true false (dd_stage_init dd_init).
+Proof. split; [unfold sizes; kk; lia|]. apply dd_stage_init_ok; cbn; auto; lia. Qed.
+
+(* ---- (b) what the bytes at dctx->dict are ------------------------------------------------- *)
+(* memory = the tmpOutBuffer array + the caller's address space *)
+Record mem := mkM { m_tmp : Z -> byte; m_abs : Z -> byte }.
+Definition rd (m : mem) (p : ptr) (i : Z) : byte :=
+  match p with PNull => 0 | PTmp o => m_tmp m (o + i) | PAbs a => m_abs m (a + i) end.
+Definition wr_at (f : Z -> byte) (base n : Z) (g : Z -> byte) : Z -> byte :=
+  fun a => if (base <=? a) && (a <? base + n) then g (a - base) else f a.
+Definition store (m : mem) (p : ptr) (n : Z) (g : Z -> byte) : mem :=
+  match p with
+  | PNull => m
+  | PTmp o => mkM (wr_at (m_tmp m) o n g) (m_abs m)
+  | PAbs a => mkM (m_tmp m) (wr_at (m_abs m) a n g)
+  end.
+Definition exec_op (m : mem) (op : mop) : mem :=
+  match op with
+  | MCopy dst src n => store m dst n (fun i => rd m src i)
+  | MWrite dst bs => store m dst (zlen bs) (fun i => nth (Z.to_nat i) bs 0)
+  | MDecode dst _ _ _ bs => store m dst (zlen bs) (fun i => nth (Z.to_nat i) bs 0)
+  end.
+Definition exec_ops (m : mem) (ops : list mop) : mem := fold_left exec_op ops m.
+Definition read (m : mem) (p : ptr) (n : Z) : list byte :=
+  map (fun i => rd m p (Z.of_nat i)) (List.seq 0%nat (Z.to_nat n)).
+
+(* the literal reading of "the dictSize bytes at dict are the last dictSize bytes of the history" *)
+Definition dict_is_history (m : mem) (d : ddict) (hist : list byte) : Prop :=
+  read m (dd_dict d) (dd_dictSize d) = lastn (Z.to_nat (dd_dictSize d)) hist.
+(* what the decoder needs (match offsets are < 64 KB): the last min(dictSize, 64 KB) bytes *)
+Definition dict_tail_is_history (m : mem) (d : ddict) (hist : list byte) : Prop :=
+  let k := Z.min (dd_dictSize d) FD_64KB in
+  Z.min FD_64KB (zlen hist) <= dd_dictSize d /\
+  read m (padd (dd_dict d) (dd_dictSize d - k)) k = lastn (Z.to_nat k) hist.
+
+Lemma read_nth0 m p n : 0 < n -> nth 0 (read m p n) 0 = rd m p 0.
+Proof.
+  intros H. unfold read. destruct (Z.to_nat n) eqn:E; [lia|]. cbn [List.seq map nth]. reflexivity.
+Qed.
+
+(* A legal call sequence (one call) after which the literal statement is false: a linked frame, bsid 4, whose
+   first block is stored (61440 bytes 0x07) and whose second block decodes to 10241 bytes; dst capacity 61441.
+   The second block goes through tmpOut (= tmpOutBuffer + 61440); one byte is flushed; at the end of the call
+   "preserve history" (2092-2103) copies only copySize = 64 KB - tmpOutSize = 55295 bytes in front of tmpOut
+   but sets dict = tmpOutBuffer, dictSize = 61441: tmpOutBuffer[0, 6145) was never written. *)
+Definition wit_blk2 : list byte := [31; 97; 1; 0] ++ repeat 255 40 ++ [16; 80; 98; 98; 98; 98; 98].
+Definition wit_frame : list byte :=
+  header_bytes (mkDesc false false None false None 4)
+  ++ le_bytes 4 (61440 + 2147483648) ++ repeat 7 (Z.to_nat 61440)
+  ++ le_bytes 4 (zlen wit_blk2) ++ wit_blk2.
+Definition wit_run := dd_decompress spec_decode_fast dctx_init dd_init wit_frame 61441 (mkO false false false) 1000000.
+Definition wit_s := fst (fst (fst wit_run)).
+Definition wit_r := snd (fst (fst wit_run)).
+Definition wit_d := snd (fst wit_run).
+Definition wit_ops := snd wit_run.
+
+Lemma wit_facts :
+  linked wit_s = true /\ d_stage wit_s = FlushOut /\ r_ret wit_r = 4 /\ r_produced wit_r = 61441 /\
+  wit_d = mkDD (PTmp 0) 61441 61440 10241 1 /\
+  nth 0 (lastn (Z.to_nat 61441) (r_out wit_r)) 0 = 7 /\
+  ops_okb (d_maxBuf wit_s) 1000000 (1000000 + 61441) wit_ops = true.
+Proof. vm_compute. repeat split; reflexivity. Qed.
+Lemma wit_tmp0 m0 : rd (exec_ops m0 wit_ops) (PTmp 0) 0 = m_tmp m0 0.
+Proof. vm_compute. reflexivity. Qed.
+
+Lemma wit_refutes :
+  linked wit_s = true /\ 0 <= r_ret wit_r /\ o_stableDst (mkO false false false) = false /\
+  forall m0, m_tmp m0 0 <> 7 -> ~ dict_is_history (exec_ops m0 wit_ops) wit_d (r_out wit_r).
+Proof.
+  destruct wit_facts as (F1 & F2 & F3 & F4 & F5 & F6 & F7).
+  split; [exact F1|]. split; [rewrite F3; lia|]. split; [reflexivity|].
+  intros m0 Hm0 Hd. unfold dict_is_history in Hd. rewrite F5 in Hd. cbn [dd_dict dd_dictSize] in Hd.
+  apply (f_equal (fun l => nth 0 l 0)) in Hd. cbv beta in Hd. rewrite read_nth0 in Hd by lia.
+  rewrite wit_tmp0 in Hd. apply Hm0. rewrite Hd. exact F6.
+Qed.
+
+Theorem dict_is_history_refuted :
+  exists src cap o dstStart,
+    let w := dd_decompress spec_decode_fast dctx_init dd_init src cap o dstStart in
+    let s := fst (fst (fst w)) in let r := snd (fst (fst w)) in let d := snd (fst w) in let ops := snd w in
+    linked s = true /\ 0 <= r_ret r /\ o_stableDst o = false /\
+    forall m0, m_tmp m0 0 <> 7 ->       (* tmpOutBuffer comes from malloc: its initial content is arbitrary *)
+      ~ dict_is_history (exec_ops m0 ops) d (r_out r).
+Proof.
+  exists wit_frame, 61441, (mkO false false false), 1000000. cbv zeta.
+  pose proof wit_refutes as H. unfold wit_s, wit_r, wit_d, wit_ops, wit_run in H. exact H.
+Qed.
